@@ -16,10 +16,10 @@ def _warm():
 def configs(ctx):
     out = []
     alphas = [0.3, 1.0, 2.5]
-    for npts in (2, 3) if ctx.quick else (2, 3, 4):
+    for npts in (2, 3, 4) if ctx.quick else (2, 3, 4, 5):
         for a in ([1.0, ctx.rng.choice([0.3, 2.5])] if ctx.quick else alphas):
             out.append(dict(move="dp", npts=npts, outliers=False, data_op=0.0, alpha=a))
-            if npts <= 3:
+            if npts <= (3 if ctx.quick else 4):
                 out.append(dict(move="dp", npts=npts, outliers=True, data_op=0.2, alpha=a))
                 out.append(dict(move="dp", npts=npts, outliers=True, data_op=0.2, alpha=a, wiring="run"))
             out.append(dict(move="prg", npts=npts, data_op=0.0, alpha=a))
@@ -30,12 +30,13 @@ def configs(ctx):
         for (dop, pop) in ((0.0, 0.0), (0.2, 0.1)):
             n, t = ctx.rng.choice([(2, 0.5), (2, 1.0), (2, 0.0)])
             out.append(dict(move="subtree", npts=2, kind=kind, prop_op=pop, data_op=dop, N=n, thr=t, alpha=ctx.rng.choice(alphas), wiring=ctx.rng.choice(["library", "run"])))
-    # three points: this is where the state-dependent subtree choice shows
-    out.append(dict(move="subtree", npts=3, kind="fully-adapted", prop_op=0.0, data_op=0.0, N=2, thr=0.0, alpha=1.0, wiring="library"))
+    # three points: this is where the state-dependent subtree choice shows (known finding)
+    for kind in KINDS:
+        for (dop, pop) in ((0.0, 0.0), (0.2, 0.1)):
+            out.append(dict(move="subtree", npts=3, kind=kind, prop_op=pop, data_op=dop, N=2, thr=ctx.rng.choice([0.0, 0.5, 1.0]), alpha=ctx.rng.choice(alphas), wiring=ctx.rng.choice(["library", "run"])))
     if not ctx.quick:
         for kind in KINDS:
-            for (dop, pop) in ((0.0, 0.0), (0.2, 0.1)):
-                out.append(dict(move="subtree", npts=3, kind=kind, prop_op=pop, data_op=dop, N=2, thr=0.5, alpha=1.0, wiring="run"))
+            out.append(dict(move="subtree", npts=4, kind=kind, prop_op=0.0, data_op=0.0, N=2, thr=0.5, alpha=1.0, wiring="run"))
     return out
 
 
